@@ -20,16 +20,31 @@ C(r) == Coef(r.ip, r.fd, r.fp)
 K(r) == Key(r.t, r.lead)
 SeqSet(s) == { s[i] : i \in 1..Len(s) }
 
+CfgOf(r) == [spc |-> r.spc, eol |-> r.eol, gmode |-> r.gmode, ctoks |-> r.ctoks, msfk |-> r.msfk, dq |-> r.dq,
+             argname |-> r.argname, argref |-> r.argref,
+             argparam |-> IF r.argparam.some THEN [some |-> TRUE, v |-> D(r.argparam.v)] ELSE NoArgParam]
+
+TraceSlice == [Keys |-> {}, AllowedKeys |-> {}, AllowedModes |-> {}, AllowedForms |-> {}, Forms |-> {}, IntCoefs |-> {},
+               DecCoefs |-> {}, InactCoefs |-> {}, MaxReac |-> 0, MaxProd |-> 0, MaxInact |-> 0, Arrows |-> {},
+               Params |-> {}, Kws |-> {}, MaxLines |-> 0, Comments |-> {}, MaxComments |-> 0, FaultKinds |-> {},
+               PrintOpts |-> AllPrintOpts, Configs |-> {}]
+TraceTable == [n \in {"trace"} |-> TraceSlice]
+
 TInit == Init /\ tid \in 1..Len(Traces) /\ pos = 1 /\ verdict = "none"
 
 Step(e) ==
-    CASE e.k = "allowed"      -> GiveAllowed(SeqSet(e.keys))
+    CASE e.k = "allowed"      -> GiveAllowed(SeqSet(e.keys), e.form)
+      [] e.k = "config"       -> Configure(CfgOf(e.cfg))
       [] e.k = "term"         -> Term(e.side, e.form, C(e.coef), K(e.key))
       [] e.k = "inact"        -> Inactive(e.side, C(e.coef), K(e.key))
       [] e.k = "arrow"        -> Arrow(e.a)
-      [] e.k = "param"        -> Param(D(e.v), e.style)
+      [] e.k = "param"        -> (IF e.kind = "num" THEN Param(D(e.v), e.style)
+                                  ELSE IF e.kind = "qty"
+                                       THEN \E ue \in UnitExprs : ue.expr = e.expr /\ ue.dim = e.unit /\ ParamQty(D(e.v), e.style, ue)
+                                       ELSE ParamSym(e.name))
       [] e.k = "kw"           -> Kw(e.key, e.val)
       [] e.k = "comment"      -> Comment(e.c)
+      [] e.k = "stale"        -> StaleComment(e.c)
       [] e.k = "newline"      -> NewLine
       [] e.k = "finish"       -> Finish
       [] e.k = "unknown"      -> UnknownKey(e.side, e.form, C(e.coef), K(e.key))
@@ -44,14 +59,21 @@ MapEq(ps, m) ==
     /\ Len(ps) = Cardinality(DOMAIN m)
     /\ \A i \in 1..Len(ps) : ps[i][1] \in DOMAIN m /\ Norm(<<ps[i][2][1], ps[i][2][2]>>) = m[ps[i][1]]
 
+\* observed parameter against the denoted one: same kind; numbers and magnitudes exactly (as decimals)
+ParamEq(op, dp) ==
+    /\ op.some = dp.some
+    /\ (dp.some => /\ op.kind = dp.kind
+                   /\ (dp.kind = "num" => DEq(D(op.v), dp.v))
+                   /\ (dp.kind = "qty" => DEq(D(op.v), dp.v) /\ op.unit = dp.unit)
+                   /\ (dp.kind = "sym" => op.name = dp.name))
+
 \* a reaction as read from the text: exactly the written species, coefficients, parameter, keywords
 LineClause(o, d) ==
     IF ~MapEq(o.reac, d.reac) THEN "reac"
     ELSE IF ~MapEq(o.prod, d.prod) THEN "prod"
     ELSE IF ~MapEq(o.ireac, d.ireac) THEN "ireac"
     ELSE IF ~MapEq(o.iprod, d.iprod) THEN "iprod"
-    ELSE IF o.param.some # d.param.some THEN "param"
-    ELSE IF d.param.some /\ ~DEq(D(o.param.v), d.param.v) THEN "param"
+    ELSE IF ~ParamEq(o.param, d.param) THEN "param"
     ELSE IF o.ref # d.ref THEN "ref"
     ELSE IF o.name # d.name THEN "name"
     ELSE ""
@@ -64,7 +86,9 @@ RTLineClause(o, d, withparam) ==
     ELSE IF o.ireac # <<>> THEN "ireac"
     ELSE IF o.iprod # <<>> THEN "iprod"
     ELSE IF o.param.some # (withparam /\ d.param.some) THEN "param"
-    ELSE IF o.param.some /\ ~WithinHalfUlp(D(o.param.v), d.param.v, 3) THEN "param-prec"
+    ELSE IF o.param.some /\ o.param.kind # d.param.kind THEN "param"
+    ELSE IF o.param.some /\ d.param.kind = "sym" /\ o.param.name # d.param.name THEN "param"
+    ELSE IF o.param.some /\ d.param.kind = "num" /\ ~WithinHalfUlp(D(o.param.v), d.param.v, 3) THEN "param-prec"
     ELSE ""
 
 RECURSIVE FirstLineClause(_, _)
@@ -72,6 +96,12 @@ FirstLineClause(ls, i) ==
     IF i > Len(lines) THEN ""
     ELSE LET c == LineClause(ls[i], lines[i].den) IN
          IF c # "" THEN "line" \o ToString(i) \o ":" \o c ELSE FirstLineClause(ls, i + 1)
+OverDen(d) == [d EXCEPT !.param = SomeParam(OverrideParam)]
+RECURSIVE FirstOverClause(_, _)
+FirstOverClause(ls, i) ==
+    IF i > Len(lines) THEN ""
+    ELSE LET c == LineClause(ls[i], OverDen(lines[i].den)) IN
+         IF c # "" THEN "line" \o ToString(i) \o ":" \o c ELSE FirstOverClause(ls, i + 1)
 RECURSIVE FirstRTClause(_, _, _)
 FirstRTClause(ls, i, wp) ==
     IF i > Len(lines) THEN ""
@@ -102,7 +132,13 @@ ObsClause(o) ==
     ELSE IF Len(o.lines) # Len(lines) THEN "nlines"
     ELSE LET lc == FirstLineClause(o.lines, 1) IN
          IF lc # "" THEN lc
+         ELSE IF IsSystem /\ SeqSet(o.substances) # SystemKeys THEN "substances"
          ELSE IF ~o.copy_eq THEN "copy-neq"
+         ELSE IF Len(o.copy_lines) # Len(lines) \/ Len(o.after_lines) # Len(lines)
+                 \/ Len(o.copy_over_lines) # Len(lines) THEN "copy-nlines"
+         ELSE IF ~o.copy_indep THEN "copy-aliased"
+         ELSE IF FirstLineClause(o.after_lines, 1) # "" THEN "copy-alias:" \o FirstLineClause(o.after_lines, 1)
+         ELSE IF FirstOverClause(o.copy_over_lines, 1) # "" THEN "copy-over:" \o FirstOverClause(o.copy_over_lines, 1)
          ELSE LET cc == FirstLineClause(o.copy_lines, 1) IN
               IF cc # "" THEN "copy:" \o cc
               ELSE IF stage = "final"
